@@ -7,7 +7,6 @@ import (
 	"sort"
 	"strings"
 	"testing"
-	"testing/synctest"
 	"time"
 	_ "time/tzdata"
 
@@ -202,7 +201,7 @@ func (e *c04Exec) subRun(z zoneCfg) (out []string, sdig string, infra string) {
 			infra = fmt.Sprintf("bubble panic: %v", p)
 		}
 	}()
-	synctest.Test(e.t, func(t *testing.T) {
+	runBubble(e.t, func(t *testing.T) {
 		start := time.Now()
 		time.Sleep(time.Duration(c.ClockMs) * time.Millisecond)
 		v.Stats.SubRuns++
